@@ -384,7 +384,9 @@ func (c *contentValidator) ValidateRequestAccept(ch *aclrecordproto.AclAccountRe
 		return ErrInsufficientPermissions
 	}
 	record, exists := c.aclState.requestRecords[ch.RequestRecordId]
-	if !exists {
+	// only a join request can be accepted: accepting a member's remove request
+	// would re-permission that member (e.g. let an admin demote another admin)
+	if !exists || record.Type != RequestTypeJoin {
 		return ErrNoSuchRequest
 	}
 	acceptIdentity, err := c.keyStore.PubKeyFromProto(ch.Identity)
